@@ -514,19 +514,24 @@ def lcommit (l : Linker) : Prog (Res Integrity) := do
         | .err e =>
           match ← call (.isLink cpath) with
           | .bool true =>
-            -- an earlier link lives at the address; its target may have changed or gone, whereas
-            -- `l.target` has just been read and hashed: point the address at it (temp link + rename)
-            let tmpDir := l.cache ++ [dTmp]
-            match ← call (.mkdirP tmpDir) with
-            | .err e' => pure (.error (.io e'))
+            -- an earlier link lives at the address.  When it already leads to the very file being linked
+            -- there is nothing to repair (and re-pointing could point the address at itself) …
+            match ← call (.sameFile cpath l.target) with
+            | .bool true => pure (.ok ())
             | _ =>
-              match ← call (.mkTempLink tmpDir l.target) with
-              | .path tp =>
-                match ← call (.renameLink tp cpath) with
-                | .err e' => do dropTmp tp; pure (.error (.io e'))
-                | _ => pure (.ok ())
+              -- … otherwise its target may have changed or gone, whereas `l.target` has just been read
+              -- and hashed: point the address at it (temp link + rename)
+              let tmpDir := l.cache ++ [dTmp]
+              match ← call (.mkdirP tmpDir) with
               | .err e' => pure (.error (.io e'))
-              | _ => pure (.error .panic)
+              | _ =>
+                match ← call (.mkTempLink tmpDir l.target) with
+                | .path tp =>
+                  match ← call (.renameLink tp cpath) with
+                  | .err e' => do dropTmp tp; pure (.error (.io e'))
+                  | _ => pure (.ok ())
+                | .err e' => pure (.error (.io e'))
+                | _ => pure (.error .panic)
           | _ =>
             match ← call (.existsF cpath) with
             | .bool true => pure (.ok ())
